@@ -1,4 +1,4 @@
-\* emission for C02: one block; one sharing call inside the block; then a poke at every offset
+\* emission for C02, thorough: one block; two sharing calls inside the block; then a poke at every offset
 SPECIFICATION MCSpec
 CONSTANTS
   Handles = {0, 1, 2}
@@ -9,16 +9,16 @@ CONSTANTS
   Pre = 2
   MaxLen = 8
   MaxWins = 6
-  Depth = 2
-  PatSet = "c02"
+  Depth = 3
+  PatSet = "q"
   InitSet = "one"
   ObsLast = FALSE
   Rand = FALSE
-  Letters = {0, 1}
+  Letters = {1}
   LastOps = {"poke"}
   LastSz = {}
   Dom = "in"
-  Ops = {"dup", "splice", "split", "append", "insert", "delete", "resize", "truncate", "poke"}
+  Ops = {"dup", "splice", "split", "append", "insert", "delete", "poke"}
 INVARIANT Emit
 CONSTRAINT Bounded
 CHECK_DEADLOCK FALSE
